@@ -96,7 +96,7 @@ def run(ctx):
             f.write(json.dumps({"id": i + 1, "target": r["target"], "chain": r["chain"], "host": r["host"],
                                 "tls": r["tls"], "draw": r["draw"]}) + "\n")
     outp = ctx.path("c19_result.json")
-    ctx.drv(["-in", inp, "-out", outp, "-workers", "8"], cmd_name="vdrv-tls", timeout=1500)
+    ctx.drv(["-in", inp, "-out", outp, "-workers", "16"], cmd_name="vdrv-tls", timeout=1500)
     out = json.load(open(outp))
     results = {r["id"]: r for r in out["results"]}
     infra = [r for r in out["results"] if r.get("infra")]
